@@ -40,6 +40,10 @@ class C03(Prop):
 
     def gen(self, rng, tier):
         cases = []
+        # gulp-sized arrays (>= 128 Ki output elements), every depth, both directions, default order
+        for d in (1, 2, 4):
+            cases.append({"op": "unpack", "dt": "u8", "d": d, "order": "big", "buf": "-", "nbig": 140000 * d // 8 + 8, "dseed": d})
+            cases.append({"op": "pack", "dt": "u8", "d": d, "order": "little", "buf": "-", "nbig": 140000 * 8 // d, "dseed": 10 + d})
         for d in (1, 2, 4):
             k = 8 // d
             for order in ("big", "little"):
@@ -109,9 +113,18 @@ class C03(Prop):
             return good if case["buf"] == "ok" else 0
         return max(0, good + int(case["buf"]))          # "+k" / "-k": k elements too many / too few
 
+    @staticmethod
+    def _data(case):
+        if "nbig" in case:               # a long array given by a seed (gulp-sized: allocation strategies change with size)
+            r = np.random.default_rng(case["dseed"])
+            hi = 256 if case["op"] == "unpack" else (1 << case["d"])
+            return [int(v) for v in r.integers(0, hi, size=case["nbig"])]
+        return case["data"]
+
     def observe(self, case):
         from sigpyproc.io import bits
 
+        case = dict(case, data=self._data(case))
         arr = np.array(case["data"], dtype=DTYPES[case["dt"]])
         bs = self._bufsize(case)
         out = None if bs is None else np.full(bs, 0xAA, dtype=np.uint8)
@@ -122,10 +135,22 @@ class C03(Prop):
             return {"err": exc_name(e)}
         if out is not None and res is not out:
             return {"err": "result-is-not-the-callers-buffer"}
-        return {"ok": [int(x) for x in res], "dtype": str(res.dtype)}
+        first = [int(x) for x in res]
+        if out is None:
+            # a result handed to the caller is the caller's: a later call of the same shape must not change it
+            other = np.ascontiguousarray(arr[::-1]) ^ (np.uint8(1) if arr.dtype == np.uint8 else 1)
+            try:
+                f(other.astype(arr.dtype), case["d"], None, bitorder=case["order"])
+            except Exception:  # noqa: BLE001
+                pass
+            if [int(x) for x in res] != first:
+                return {"err": "earlier-result-overwritten-by-a-later-call"}
+        return {"ok": first, "dtype": str(res.dtype)}
 
     # -- model ---------------------------------------------------------------
     def model_requests(self, case, obs):
+        if "nbig" in case:
+            return []            # too long for a request line: the unbounded theorems + the oracle cover it
         bs = self._bufsize(case)
         order = case["order"] or "_"
         data = case["data"]
@@ -133,6 +158,8 @@ class C03(Prop):
                 f"{len(data)} {' '.join(map(str, data))}".strip()]
 
     def model_compare(self, case, obs, answers):
+        if not answers:
+            return None
         a = answers[0].split()
         if "err" in obs:
             want = f"err {obs['err']}"
@@ -143,6 +170,7 @@ class C03(Prop):
 
     # -- independent oracle ----------------------------------------------------
     def oracle(self, case, obs):
+        case = dict(case, data=self._data(case))
         d, order, data = case["d"], case["order"], case["data"]
         bs = self._bufsize(case)
         valid = (case["dt"] == "u8" and d in (1, 2, 4) and bool(order) and order[0] in "bl")
@@ -170,6 +198,8 @@ class C03(Prop):
         return None
 
     def regime(self, case, obs):
+        if "nbig" in case:
+            return "gulp-sized"
         if case["dt"] != "u8":
             return "invalid-dtype"
         if case["d"] not in (1, 2, 4):
@@ -183,11 +213,13 @@ class C03(Prop):
         return f"{case['op']}-valid"
 
     def nontrivial(self, case, obs):
-        return "ok" in obs and len(case["data"]) > 0
+        return "ok" in obs and (len(case.get("data", [])) > 0 or "nbig" in case)
 
     def shrink(self, failing):
         # try each byte / tuple alone
         case = failing["case"]
+        if "nbig" in case:
+            return failing
         d = case["d"]
         k = 1 if case["op"] == "unpack" else (8 // d if d in (1, 2, 4) else 1)
         for i in range(0, len(case["data"]), k):
